@@ -194,9 +194,11 @@ def specRecv : (reads : List Read) → (buf : List Byte) → Out
       | .ioErr => .err buf
       | .eof => .err buf
 
-theorem recvLoop_eq_spec (reads : List Read) (searched : Nat) (buf : List Byte)
-    (hno : ∀ j < searched, ¬ OccAt marker buf j) :
-    recvLoop .fixed reads searched buf = specRecv reads buf := by
+/-- The receive loop with end-of-stream check and any restart distance `back ≥ marker.length - 1`
+equals the reference loop that searches the whole buffer on every iteration. -/
+theorem recvLoop_eq_spec_back (back : Nat) (hb : marker.length - 1 ≤ back) (reads : List Read) (searched : Nat)
+    (buf : List Byte) (hno : ∀ j < searched, ¬ OccAt marker buf j) :
+    recvLoop { back := back, eofCheck := true } reads searched buf = specRecv reads buf := by
   induction reads generalizing searched buf with
   | nil =>
     simp only [recvLoop, specRecv]
@@ -217,10 +219,16 @@ theorem recvLoop_eq_spec (reads : List Read) (searched : Nat) (buf : List Byte)
           have : find marker buf = none := by
             rw [find_shift marker buf searched marker_ne_nil hno, hf]; rfl
           exact (find_none_iff _ _ marker_ne_nil).mp this
-        exact no_occ_append marker buf bs hall
+        intro j hj
+        exact no_occ_append marker buf bs hall j (by omega)
       | eof => rfl
       | ioErr => rfl
     | some i => simp [Nat.add_comm]
+
+theorem recvLoop_eq_spec (reads : List Read) (searched : Nat) (buf : List Byte)
+    (hno : ∀ j < searched, ¬ OccAt marker buf j) :
+    recvLoop .fixed reads searched buf = specRecv reads buf :=
+  recvLoop_eq_spec_back (marker.length - 1) (Nat.le_refl _) reads searched buf hno
 
 theorem recv_eq_spec (buf : List Byte) (reads : List Read) :
     recv .fixed buf reads = specRecv reads buf :=
